@@ -24,6 +24,8 @@ type job struct {
 	CancelStride int            `json:"cancelStride"`
 	VanishStride int            `json:"vanishStride"`
 	Off          int            `json:"off"`
+	ErrnoOps     []string       `json:"errnoOps"` // sweep: primitives that also get EPERM / EACCES / ENOENT
+	NoExtras     bool           `json:"noExtras"` // sweep: no missing-file / delete-inside runs
 	OnlyOps      []string       `json:"onlyOps"` // sweep: inject only at primitives with these names (empty = all)
 	NonTrivial   bool           `json:"nonTrivial"`
 	Sample       bool           `json:"sample"`
